@@ -1469,6 +1469,11 @@ func (stmt *UpsertIntoStmt) execAt(ctx context.Context, tx *SQLTx, params map[st
 
 				pkMustExist = nl <= table.maxPK
 
+				if nl > table.maxPK {
+					// following auto-generated values must not collide with the specified one
+					table.maxPK = nl
+				}
+
 				if _, ok := tx.firstInsertedPKs[table.name]; !ok {
 					tx.firstInsertedPKs[table.name] = nl
 				}
